@@ -532,6 +532,16 @@ func (root *Root) validate() error {
 		errs = append(errs, root.validateDirUses(t)...)
 		errs = append(errs, t.Validate(root)...)
 	}
+	if root.schema != nil && root.implicitSchema {
+		// An implied schema is not in the type list but it can be extended
+		// and has to follow the same rules as one that is written out. It
+		// remains empty as long as none of the types it is implied by has
+		// been defined.
+		errs = append(errs, root.validateDirUses(root.schema)...)
+		if 0 < len(root.schema.fields.list) {
+			errs = append(errs, root.schema.Validate(root)...)
+		}
+	}
 	if 0 < len(errs) {
 		return Errors(errs)
 	}
